@@ -9,6 +9,14 @@ CHECKS = {
    category="exploration", design_ref="3/C09", technique="property-based testing (hypothesis): bit-level reference model + metamorphic re-nesting + history independence",
    text="Generated search over leaf sequences x nestings x view histories against an independent bit-level model of tree values; every view, every subtree, every request order. Exploration is the right level: the domain is unbounded but cases cost microseconds, so tens of thousands of distinct shapes are covered per run and failures shrink to a handful of leaves.",
    note="Trusts CPython's codecs and int(); only default encodings; trees are built through the public DerivationTree/Terminal constructors."),
+ "C04": dict(
+   category="exploration", design_ref="3/C04", technique="property-based testing (hypothesis): generated specs x inputs (enumerated, generated, near-miss, random) against an independent derivation checker and recogniser",
+   text="Every tree yielded by Grammar.parse_forest / Fandango.parse for generated grammars (text, bytes, bit-level) and inputs inside and outside the language is re-checked by a derivation checker and recogniser that share no code with Fandango; serialisation must equal the input; constraints are re-evaluated by CPython on the raw input. Exploration: thousands of (spec, input) pairs per run, inputs up to 8 characters / 4 bytes.",
+   note="Trusts vf/spec.py (reference semantics) and CPython re; parser state budget hits are counted as inconclusive; constraints limited to string-level predicates on the start symbol."),
+ "C05": dict(
+   category="exploration", design_ref="3/C05", technique="property-based testing (hypothesis): round trip generate->parse plus independent enumeration of L(G) up to a length bound",
+   text="Words from Grammar.fuzz/Fandango.fuzz and ALL words of L(G) up to 6 characters / 4 bytes from an independent enumerator (capped per spec) must be accepted by Fandango.parse with an identical serialisation and a tree the reference accepts. Completeness is demanded for words with a greedy-regex derivation (the class named in the statement); the rest is counted as set aside.",
+   note="Trusts vf/spec.py enumerator/recogniser; words longer than the bound and grammars with non-ASCII text inside binary specs are not generated."),
 }
 NA = {}
 checks = []
